@@ -70,8 +70,11 @@ def outcome_menu(n, per_recipient=True, sequences=False, boom=True, reply_ok=Tru
     return m
 
 
-def make_envelope(i, n, sender=None, body=b'Subject: m\r\n\r\nbody\r\n'):
-    e = Envelope(('s%d@x' % i) if sender is None else sender, ['r%d%d@y' % (i, j) for j in range(n)])
+def make_envelope(i, n, sender=None, body=b'Subject: m\r\n\r\nbody\r\n', unicode_rcpts=False):
+    rc = ['r%d%d@y' % (i, j) for j in range(n)]
+    if unicode_rcpts:
+        rc = ['r\u00e9%d%d@y' % (i, j) if j % 2 == 0 else r for j, r in enumerate(rc)]      # legal with SMTPUTF8
+    e = Envelope(('s%d@x' % i) if sender is None else sender, rc)
     e.parse(body)
     e.client = {'ip': '192.0.2.9', 'name': 'client', 'host': None, 'protocol': 'ESMTP'}
     e.receiver = 'mx.test'
@@ -324,7 +327,8 @@ class QueueWorld(object):
         'pipe-whole': ['ok', 'temp', 'perm', 'killed'],
         'maildrop': ['ok', 'temp', 'perm', 'killed'],
         'smtp': [{}, {'rcpt0': '251'}, {'rcpt0': '5'}, {'rcpt0': '4'}, {'mail': '4'}, {'data': '5'}, {'eod': '4'}, {'eod': '5'}, {'banner': 'disconnect'},
-                 {'rcpt0': '4', 'rcpt1': '5'}, {'eod': 'disconnect'}, {'connect': 'refused'}, {'mail': 'stall'}],
+                 {'rcpt0': '4', 'rcpt1': '5'}, {'eod': 'disconnect'}, {'connect': 'refused'}, {'mail': 'stall'}, {'eod': 'stall'},
+                 {'rcpt0': '251', 'eod': '5'}],
         'http': ['200+250', '200', '500+451', '503', '400+550', '404', 'drop', 'refused', '200+garbage', '302', '204', '301+250'],
         'lmtp': [{}, {'rcpt0': '5'}, {'eod0': '5'}, {'eod0': '4'}, {'eod1': '4'}, {'mail': '4'}, {'eod0': '5', 'eod1': '4'}, {'banner': 'disconnect'},
                  {'rcpt0': '251', 'eod1': '4'}, {'rcpt0': '251', 'eod1': '5'}, {'rcpt0': '251'}, {'connect': 'refused'}, {'eod0': 'stall'}],
@@ -376,120 +380,7 @@ class QueueWorld(object):
         return outcome[1]
 
     def _run_real_relay(self, kind, behaviour, envelope, attempts, rcpts):
-        import socket as _socket
-        if kind in ('pipe', 'pipe-whole', 'maildrop'):
-            import slimta.relay.pipe as pipe
-            from fakes.fakepopen import FakeSubprocess
-            calls = []
-
-            def script(args, stdin, i):
-                calls.append(i)
-                b = behaviour
-                if b == 'first-ok-rest-temp':
-                    b = 'ok' if i == 0 else 'temp'
-                elif b == 'first-perm-rest-ok':
-                    b = 'perm' if i == 0 else 'ok'
-                elif b == 'first-ok-rest-killed':
-                    b = 'ok' if i == 0 else 'killed'
-                if b == 'ok':
-                    return (0, b'', b'')
-                if b == 'killed':
-                    return (-9, b'', b'')          # the delivery program died from a signal
-                if kind == 'maildrop':
-                    return (75, b'maildrop: busy\n', b'') if b == 'temp' else (1, b'maildrop: no such user\n', b'')
-                return (1, b'4.2.0 try later\n', b'') if b == 'temp' else (1, b'5.1.1 no such user\n', b'')
-            sp = FakeSubprocess(script)
-            self.world.patch(pipe, 'subprocess', sp)
-            if kind == 'maildrop':
-                relay = pipe.MaildropRelay()
-            else:
-                relay = pipe.PipeRelay(['deliver', '{recipient}'])
-                relay.per_recipient = kind == 'pipe'
-            try:
-                outcome = ('returned', relay.attempt(envelope, attempts))
-            except gevent.GreenletExit:
-                raise
-            except BaseException as e:
-                outcome = ('raised', e)
-            accepted = set()
-            for i in calls:
-                b = behaviour
-                if b == 'first-ok-rest-temp':
-                    b = 'ok' if i == 0 else 'temp'
-                elif b == 'first-perm-rest-ok':
-                    b = 'perm' if i == 0 else 'ok'
-                elif b == 'first-ok-rest-killed':
-                    b = 'ok' if i == 0 else 'killed'
-                if b == 'ok':
-                    accepted.update([rcpts[i]] if relay.per_recipient else rcpts)
-            return accepted, outcome
-        if kind == 'http':
-            # HttpRelay in front of a scripted origin: the origin took the message iff it answered 2xx
-            import types
-            import slimta.http as shttp
-            from slimta.relay.http import HttpRelay
-            from fakes.vsock import Net
-            from fakes.fakehttp import HttpPeer, response
-            net = Net(self.world)
-            took = []
-
-            def create_connection(addr, timeout=None, source_address=None):
-                if behaviour == 'refused':
-                    raise _socket.error(111, 'Connection refused')
-                c, s_ = net.pair(peername=addr)
-
-                def responder(req, k):
-                    if behaviour == 'drop':
-                        return 'drop'
-                    status, _, hdr = behaviour.partition('+')
-                    hs = []
-                    if hdr == 'garbage':
-                        hs = [('X-Smtp-Reply', 'not a reply')]
-                    elif hdr:
-                        hs = [('X-Smtp-Reply', '%s; message="%s.0.0 scripted origin answer"' % (hdr, hdr[0]))]
-                    if status.startswith('2'):
-                        took.append(k)
-                    return response(int(status), {'200': 'OK', '204': 'No Content', '301': 'Moved Permanently', '302': 'Found',
-                                                  '500': 'Internal Server Error', '503': 'Service Unavailable',
-                                                  '400': 'Bad Request', '404': 'Not Found'}[status], hs, b'' if status == '204' else b'x')
-                gevent.spawn(HttpPeer(s_, responder).run)
-                return c
-            self.world.patch(shttp, 'socket', types.SimpleNamespace(create_connection=create_connection))
-            relay = HttpRelay('http://mx.test:8025/deliver', ehlo_as='relay.test', timeout=9.0)
-            try:
-                outcome = ('returned', relay.attempt(envelope, attempts))
-            except gevent.GreenletExit:
-                raise
-            except BaseException as e:
-                outcome = ('raised', e)
-            return (set(rcpts) if took else set()), outcome
-        # SMTP / LMTP over in-memory sockets
-        from slimta.relay.smtp.static import StaticSmtpRelay, StaticLmtpRelay
-        from fakes.vsock import Net, VContext
-        from fakes.downstream import ScriptedPeer
-        net = Net(self.world)
-        peers = []
-
-        def creator(address):
-            if behaviour.get('connect') == 'refused':
-                raise _socket.error(111, 'Connection refused')
-            c, s_ = net.pair(peername=address)
-            p = ScriptedPeer(s_, dict(behaviour), lmtp=(kind == 'lmtp'))
-            peers.append(p)
-            gevent.spawn(p.run)
-            return c
-        cls = StaticLmtpRelay if kind == 'lmtp' else StaticSmtpRelay
-        relay = cls('mx.test', 25, socket_creator=creator, ehlo_as='relay.test', context=VContext())
-        try:
-            outcome = ('returned', relay.attempt(envelope, attempts))
-        except gevent.GreenletExit:
-            raise
-        except BaseException as e:
-            outcome = ('raised', e)
-        accepted = set()
-        for p in peers:
-            accepted |= set(r.decode('utf-8') for snd, r in p.accepted())
-        return accepted, outcome
+        return run_real_relay(self.world, kind, behaviour, envelope, attempts, rcpts)
 
     def index_model(self, qid, led):
         """What KF-C03-1 predicts get() to return: the delivered indexes of every marking round, each relative to
@@ -692,7 +583,7 @@ class QueueWorld(object):
                     self.script_pos = pos + 1
                     act = script[pos]
                     if act[0] == 'enqueue':
-                        env = make_envelope(act[1], n, senders.get(act[1]), cfg.get('body', b'Subject: m\r\n\r\nbody\r\n'))
+                        env = make_envelope(act[1], n, senders.get(act[1]), cfg.get('body', b'Subject: m\r\n\r\nbody\r\n'), cfg.get('unicode_rcpts', False))
                         g = gevent.spawn(q.enqueue, env)
                         g.link_exception(lambda g: self.ev('enqueue-raised', type(g.exception).__name__))
                     elif act[0] == 'flush':
@@ -934,6 +825,126 @@ class QueueWorld(object):
                 tuple(sorted((k, tuple(v['delivered']), tuple(sorted(v['failed']))) for k, v in self.ledger.items())),
                 tuple((b['rcpts'], b['code'], b['produced'], b['enqueued']) for b in self.bounces),
                 tuple(sorted(set(v[0] for v in self.violations))), tuple(sorted(set(self.errors))))
+
+
+def run_real_relay(world, kind, behaviour, envelope, attempts, rcpts):
+    """One attempt of a real relay class in front of a scripted downstream.  -> (set of recipients the downstream truly
+    accepted, ('returned', value) | ('raised', exception))."""
+    import socket as _socket
+    if kind in ('pipe', 'pipe-whole', 'maildrop'):
+        import slimta.relay.pipe as pipe
+        from fakes.fakepopen import FakeSubprocess
+        calls = []
+
+        def script(args, stdin, i):
+            calls.append(i)
+            b = behaviour
+            if b == 'first-ok-rest-temp':
+                b = 'ok' if i == 0 else 'temp'
+            elif b == 'first-perm-rest-ok':
+                b = 'perm' if i == 0 else 'ok'
+            elif b == 'first-ok-rest-killed':
+                b = 'ok' if i == 0 else 'killed'
+            if b == 'ok':
+                return (0, b'', b'')
+            if b == 'killed':
+                return (-9, b'', b'')          # the delivery program died from a signal
+            if kind == 'maildrop':
+                return (75, b'maildrop: busy\n', b'') if b == 'temp' else (1, b'maildrop: no such user\n', b'')
+            return (1, b'4.2.0 try later\n', b'') if b == 'temp' else (1, b'5.1.1 no such user\n', b'')
+        sp = FakeSubprocess(script)
+        world.patch(pipe, 'subprocess', sp)
+        if kind == 'maildrop':
+            relay = pipe.MaildropRelay()
+        else:
+            relay = pipe.PipeRelay(['deliver', '{recipient}'])
+            relay.per_recipient = kind == 'pipe'
+        try:
+            outcome = ('returned', relay.attempt(envelope, attempts))
+        except gevent.GreenletExit:
+            raise
+        except BaseException as e:
+            outcome = ('raised', e)
+        accepted = set()
+        for i in calls:
+            b = behaviour
+            if b == 'first-ok-rest-temp':
+                b = 'ok' if i == 0 else 'temp'
+            elif b == 'first-perm-rest-ok':
+                b = 'perm' if i == 0 else 'ok'
+            elif b == 'first-ok-rest-killed':
+                b = 'ok' if i == 0 else 'killed'
+            if b == 'ok':
+                accepted.update([rcpts[i]] if relay.per_recipient else rcpts)
+        return accepted, outcome
+    if kind == 'http':
+        # HttpRelay in front of a scripted origin: the origin took the message iff it answered 2xx
+        import types
+        import slimta.http as shttp
+        from slimta.relay.http import HttpRelay
+        from fakes.vsock import Net
+        from fakes.fakehttp import HttpPeer, response
+        net = Net(world)
+        took = []
+
+        def create_connection(addr, timeout=None, source_address=None):
+            if behaviour == 'refused':
+                raise _socket.error(111, 'Connection refused')
+            c, s_ = net.pair(peername=addr)
+
+            def responder(req, k):
+                if behaviour == 'drop':
+                    return 'drop'
+                status, _, hdr = behaviour.partition('+')
+                hs = []
+                if hdr == 'garbage':
+                    hs = [('X-Smtp-Reply', 'not a reply')]
+                elif hdr:
+                    hs = [('X-Smtp-Reply', '%s; message="%s.0.0 scripted origin answer"' % (hdr, hdr[0]))]
+                if status.startswith('2'):
+                    took.append(k)
+                return response(int(status), {'200': 'OK', '204': 'No Content', '301': 'Moved Permanently', '302': 'Found',
+                                              '500': 'Internal Server Error', '503': 'Service Unavailable',
+                                              '400': 'Bad Request', '404': 'Not Found'}[status], hs, b'' if status == '204' else b'x')
+            gevent.spawn(HttpPeer(s_, responder).run)
+            return c
+        world.patch(shttp, 'socket', types.SimpleNamespace(create_connection=create_connection))
+        relay = HttpRelay('http://mx.test:8025/deliver', ehlo_as='relay.test', timeout=9.0)
+        try:
+            outcome = ('returned', relay.attempt(envelope, attempts))
+        except gevent.GreenletExit:
+            raise
+        except BaseException as e:
+            outcome = ('raised', e)
+        return (set(rcpts) if took else set()), outcome
+    # SMTP / LMTP over in-memory sockets
+    from slimta.relay.smtp.static import StaticSmtpRelay, StaticLmtpRelay
+    from fakes.vsock import Net, VContext
+    from fakes.downstream import ScriptedPeer
+    net = Net(world)
+    peers = []
+
+    def creator(address):
+        if behaviour.get('connect') == 'refused':
+            raise _socket.error(111, 'Connection refused')
+        c, s_ = net.pair(peername=address)
+        p = ScriptedPeer(s_, dict(behaviour), lmtp=(kind == 'lmtp'))
+        peers.append(p)
+        gevent.spawn(p.run)
+        return c
+    cls = StaticLmtpRelay if kind == 'lmtp' else StaticSmtpRelay
+    relay = cls('mx.test', 25, socket_creator=creator, ehlo_as='relay.test', context=VContext())
+    try:
+        outcome = ('returned', relay.attempt(envelope, attempts))
+    except gevent.GreenletExit:
+        raise
+    except BaseException as e:
+        outcome = ('raised', e)
+    accepted = set()
+    for p in peers:
+        accepted |= set(r.decode('utf-8') for snd, r in p.accepted())
+    return accepted, outcome
+
 
 
 class RecordingBounceQueue(object):
